@@ -61,3 +61,21 @@ func init() {
 	addMutant(Mutant{Name: "c28-oneof-not-checked", Property: "C28", File: "protogen/protogen.go",
 		Old: "\t\t\tif f.IsOneOf {\n\t\t\t\tif err := check(f.OneOfFields); err != nil {\n\t\t\t\t\treturn err\n\t\t\t\t}\n\t\t\t\tcontinue\n\t\t\t}\n", New: "\t\t\tif f.IsOneOf {\n\t\t\t\tcontinue\n\t\t\t}\n", Expect: "checkUniqueFieldTags:shape"})
 }
+
+func init() {
+	// C24
+	addMutant(Mutant{Name: "c24-uint64-rejected", Property: "C24", File: "protomap/proto.go",
+		Old: "\t\t\tcase uint64:\n\t\t\t\tnsv = iv\n", New: "", Expect: "wrapper:*ywrapper.UintValue"})
+	addMutant(Mutant{Name: "c24-leaflist-any-rejected", Property: "C24", File: "protomap/proto.go",
+		Old: "\tif av, ok := chv.([]any); ok {", New: "\tif av, ok := chv.([]any); ok && false {", Expect: "leaflist:"})
+	addMutant(Mutant{Name: "c24-enum-by-index", Property: "C24", File: "protomap/proto.go",
+		Old: "fd.Enum().Values().ByNumber(val.(protoreflect.EnumNumber))", New: "fd.Enum().Values().Get(int(val.(protoreflect.EnumNumber)))", Expect: "Get#"})
+	addMutant(Mutant{Name: "c24-key-empty-missing", Property: "C24", File: "protomap/proto.go",
+		Old: "\t\t\t\tif _, ok := key[keyName]; !ok {", New: "\t\t\t\tif key[keyName] == \"\" {", Expect: "key-lookup"})
+	addMutant(Mutant{Name: "c24-union-bool-dropped", Property: "C24", File: "protomap/proto.go",
+		Old: "\t\t\tcase reflect.Bool:\n\t\t\t\tif fd.Kind() == protoreflect.BoolKind {", New: "\t\t\tcase reflect.Bool:\n\t\t\t\tif fd.Kind() == protoreflect.Int64Kind {", Expect: "union-leaflist:protoreflect.BoolKind"})
+	addMutant(Mutant{Name: "c24-unresolved-path", Property: "C24", File: "protomap/proto.go",
+		Old: "\t\tvals[resolvedPath(basePath, path)] = val\n", New: "\t\tvals[path] = val\n", Expect: "result-store"})
+	addMutant(Mutant{Name: "c24-key-parse-signed", Property: "C24", File: "protomap/proto.go",
+		Old: "v, err := strconv.ParseUint(val, 10, 64)", New: "x, err := strconv.ParseInt(val, 10, 64)\n\t\tv := uint64(x)", Expect: "list-key:protoreflect.Uint64Kind"})
+}
